@@ -1,4 +1,4 @@
 """Which level each property's evidence may claim: 'proof' once Properties/<id>.lean contains the
 property's theorems (not the placeholder), 'exploration' before that."""
 LEVEL = {f"C{i:02d}": "exploration" for i in range(1, 19)}
-LEVEL.update({"C01": "proof", "C02": "proof"})
+LEVEL.update({"C01": "proof", "C02": "proof", "C03": "proof"})
